@@ -17,7 +17,7 @@ ID = "C16"
 LEVEL = "exploration"
 ENGINE = "simdisk"
 
-TIERS = {"quick": {"runs": 600, "budget": 60.0, "cap": 120.0},
+TIERS = {"quick": {"runs": 1500, "budget": 60.0, "cap": 120.0},
          "thorough": {"runs": 200000, "budget": 900.0, "cap": 300.0}}
 
 CONSUMERS = ["dynamics", "correlations", "gradient", "pt_tebd"]
